@@ -24,6 +24,7 @@ import (
 	"net/textproto"
 	"os"
 	"path/filepath"
+	"runtime"
 	"strconv"
 	"strings"
 	"sync"
@@ -396,6 +397,13 @@ func customAuth(name, host string) smtp.Auth {
 	return nil
 }
 
+// closeNotifyArtefact: after a 221 the reference server closes its end at once; tls.Conn.Close then may or may not be
+// able to write its close_notify alert into the in-memory pipe (a timing race of the transport, on TCP the write
+// succeeds).  The QUIT was acknowledged and the connection is closed: canonicalised to success.
+func closeNotifyArtefact(err error) bool {
+	return err != nil && strings.Contains(err.Error(), "closeNotify")
+}
+
 // Bound is the property's generous bound on the duration of one public call.
 func Bound(timeout time.Duration) time.Duration {
 	b := 20 * timeout
@@ -557,6 +565,9 @@ func Run(c Case, p *PKI, timeout time.Duration) (Obs, error) {
 				oc.phase, oc.results = "send", []string{"send"}
 			case strings.HasPrefix(err.Error(), "failed to close connection: "):
 				oc.phase, oc.results = "close", []string{Classify(err)}
+				if closeNotifyArtefact(err) {
+					oc.phase, oc.results = "", []string{"ok"}
+				}
 			default:
 				oc.results = []string{Classify(err)}
 			}
@@ -574,6 +585,9 @@ func Run(c Case, p *PKI, timeout time.Duration) (Obs, error) {
 				e2 := client.Reset()
 				oc.results = append(oc.results, Classify(e2))
 				e3 := client.Close()
+				if closeNotifyArtefact(e3) {
+					e3 = nil
+				}
 				oc.results = append(oc.results, Classify(e3))
 				for _, e := range []error{e1, e2, e3} {
 					if oc.first == nil && e != nil {
@@ -612,6 +626,14 @@ func Run(c Case, p *PKI, timeout time.Duration) (Obs, error) {
 	if ln != nil {
 		ln.Close()
 	}
+	if c.SSL {
+		// TCP: a write to a connection the peer has closed may succeed (the read then sees EOF) or fail (EPIPE, reset)
+		for i, x := range oc.results {
+			if x == "write" || x == "eof" || strings.Contains(x, "reset_by_peer") || strings.Contains(x, "broken_pipe") {
+				oc.results[i] = "gone"
+			}
+		}
+	}
 	o.Results, o.Phase = oc.results, oc.phase
 	if oc.first != nil {
 		o.Err = oc.first.Error()
@@ -623,11 +645,13 @@ func Run(c Case, p *PKI, timeout time.Duration) (Obs, error) {
 	}
 	stillOpen := c.Kind == "dial" && len(oc.results) == 1 && oc.results[0] == "ok"
 	if stillOpen {
-		select {
-		case <-srv.Done:
-			o.Ended = true
-		case <-time.After(50 * time.Millisecond):
-			o.Ended = false
+		if c.SSL {
+			select {
+			case <-srv.Done:
+				o.Ended = true
+			case <-time.After(50 * time.Millisecond):
+				o.Ended = false
+			}
 		}
 		if memClient != nil {
 			memClient.Close()
@@ -638,10 +662,16 @@ func Run(c Case, p *PKI, timeout time.Duration) (Obs, error) {
 		o.Ended = !srv.ForcedStop
 	}
 
+	// the client (and with it the net.Conn of the stock dialer) must stay reachable until here: a garbage-collected
+	// *net.TCPConn is closed by its finalizer, which would hide a leaked connection
+	runtime.KeepAlive(client)
 	tr, _ := srv.Snapshot()
 	var sb []string
 	for _, e := range tr {
 		v := e.Verb
+		if v == "EOD-MISSING" {
+			continue // pseudo event of the reference server: the client went away while the server was in data mode
+		}
 		if v == "AUTH" {
 			v = "AUTH:" + e.Arg
 		}
